@@ -29,11 +29,11 @@ def lemma_vx_arithmetic(tier):
     fn = front.strip(front.find(rel, "VX._get_expiry_date"))
     src = ast.unparse(fn)
     ok = all(x in src for x in ("timedelta(days=32)", "21 - (calendar.weekday(next_month.year, next_month.month, 1) + 2) % 7", "timedelta(days=30)"))
-    out.append(lemma.check("C19::lemma::vx_code_uses_this_arithmetic", ok, "VX._get_expiry_date: +32 days, 21 - (weekday(1st)+2)%7, -30 days (read from the AST)"))
+    out.append(lemma.binds("C19::lemma::vx_code_uses_this_arithmetic", ok, "VX._get_expiry_date: +32 days, 21 - (weekday(1st)+2)%7, -30 days (read from the AST)"))
     for cls, idx, nm in (("ES", 2, "third"), ("NK", 1, "second")):
         f = front.strip(front.find(rel, cls + "._get_expiry_date"))
         s_ = ast.unparse(f)
-        out.append(lemma.check("C19::lemma::%s_picks_the_%s_friday" % (cls.lower(), nm),
+        out.append(lemma.binds("C19::lemma::%s_picks_the_%s_friday" % (cls.lower(), nm),
                                "dates['Friday'][%d]" % idx in s_ and "range(1, nr_days + 1)" in s_ and "strftime('%A')" in s_,
                                "%s._get_expiry_date collects the month's days by weekday name and returns Fridays[%d]" % (cls, idx)))
     k, first = z3.Ints("k first")
